@@ -639,12 +639,23 @@ func c06Match(c *vrep.Ctx) {
 		// class "inside the license range", by construction: the notice sits strictly between the
 		// first and the last word-bearing line of the planted copy (harness tokenisation, not Match)
 		if e.NoticeLine > 0 {
+			// from the text alone: the planted copy occupies the lines behind the prefix; its first and
+			// last line with anything but white space bound the range (line numbers of the unedited
+			// text, mapped through the edit)
 			e.Class = ""
-			toks := vTokenize([]byte(base))
-			start := len(vTokenize([]byte(pre)))
-			n := len(vDocWords(cl, d.Key))
-			if n > 0 && start+n <= len(toks) {
-				if e.NoticeLine > e.LineMap[toks[start].Line] && e.NoticeLine < e.LineMap[toks[start+n-1].Line] {
+			dl := strings.Split(string(d.Bytes), "\n")
+			first, last := -1, -1
+			for i, l := range dl {
+				if strings.TrimSpace(l) != "" {
+					if first < 0 {
+						first = i
+					}
+					last = i
+				}
+			}
+			l0 := strings.Count(pre, "\n") + 1
+			if first >= 0 && l0+last < len(e.LineMap) {
+				if e.NoticeLine > e.LineMap[l0+first] && e.NoticeLine < e.LineMap[l0+last] {
 					e.Class = "copyright-inside-license-range"
 				}
 			}
